@@ -26,7 +26,7 @@ ASSUMPTIONS = ["forging a valid Ed25519 signature is not attempted; tampering me
 PROBES = ["mutation_in_signature", "mutation_in_body", "mutation_in_head", "truncation", "unknown_code", "ack_code", "gram_number_beyond_count",
           "invalid_utf8_body", "resigned_by_other_key", "random_bytes", "hostile_before_genuine", "authic_receiver"]
 BOUNDS = dict(quick=dict(memos=4, hostile=12), thorough=dict(memos=6, hostile=24))
-TIERS = dict(quick=dict(cases=12000, wall=40.0), thorough=dict(cases=1200000, wall=420.0))
+TIERS = dict(quick=dict(cases=30000, wall=60.0), thorough=dict(cases=1200000, wall=420.0))
 SIM_TIME_UNIT = "deliveries"
 
 
